@@ -615,11 +615,16 @@ package syncer
 //@   loop 2:
 //@     invariant only_index_removals_queued: bCpPuts == 0 && (bLen == 0 || (bFirst == "zrem" && bLast == "zrem"))
 
+//   stateReset  1 once this start has discarded the stored frontier and journal records
 //@ func RedisOutput.bisyncStartPoint
 //@   arith int
 //@   properties C14
-//@   replay syncer_bisyncStartPoint
-//@   modifies heap, savedFrontierSeq, savedFrontierOk, bLen, bFirst, bLast, bCpPuts, bCp, bCpPos, tCpHigh, cpArmed, startSeq, startPinned, curDb, cpDb, rootReads, rootOff, rootRun
+//@   replay syncer_bisyncStartPoint syncer_staleFrontierState
+//@   ghost var stateReset mathint = 0
+//@   modifies heap, savedFrontierSeq, savedFrontierOk, bLen, bFirst, bLast, bCpPuts, bCp, bCpPos, tCpHigh, cpArmed, startSeq, startPinned, curDb, cpDb, rootReads, rootOff, rootRun, stateReset
+//@   set stateReset = 0 at call GetCheckpoint
+//@   set stateReset = ite(result == nil, 1, 0) after call resetBisyncFrontierState optional
+//@   ensures a_restarted_numbering_never_meets_records_of_the_old_one [local]: result3 == nil && result2 && result1 == 0 && (snapshot != nil || len(records) > 0) ==> stateReset == 1
 
 // ---- bidirectional sync: what is suppressed as the tool's own traffic (C13) ---------------
 // Only the reserved bookkeeping namespace decides: a command is dropped as bookkeeping only
